@@ -19,12 +19,12 @@ import (
 
 func init() {
 	simkit.Register(&simkit.Prop{
-		ID:   "C19",
-		Desc: "transaction encoding is canonical and its hash binds the signed content",
-		Rule: "a run = 10..60 transactions (invoke, deploy, EIP-155; 0..3 signature sets, canonical and hand-assembled scripts) each altered on the wire by a tape-chosen fault: none / byte flip / truncation / trailing bytes / a minimal var-int re-encoded non-minimally (0xfd/0xfe/0xff forms) at a tape-chosen var-int position / a length field changed / only signature bytes changed / size blown over 1 MiB. For every byte string the node's decoder (TransactionFromRawBytes) ACCEPTS: ToArray() equals the consumed bytes; the unsigned part re-encoded from the PARSED FIELDS (a MutableTransaction built from them and serialised, which does not reuse the captured bytes) equals the consumed unsigned prefix; hash = sha256^2(unsigned prefix) (Ontology format) or the EIP-155 transaction hash; a change confined to the signature section leaves the hash unchanged; inputs over the size limit are rejected. non-trivial = >= 3 accepted altered inputs evaluated and >= 1 rejected; distinct = distinct event-trace hash",
-		Real: []string{"core/types transaction codec (Deserialization, IntoMutable, serialisation)", "core/payload codecs", "common zero-copy source/sink"},
-		Stub: []string{"client and corrupting link (harness)"},
-		Assumptions: []string{"the only simulator dimension is in-flight corruption; exploration over generated corruptions, not all byte strings", "the signature section is compared byte-for-byte only through ToArray (a different but valid script encoding is not a hash-relevant difference)"},
+		ID:             "C19",
+		Desc:           "transaction encoding is canonical and its hash binds the signed content",
+		Rule:           "a run = 10..60 transactions (invoke, deploy, EIP-155; 0..3 signature sets, canonical and hand-assembled scripts) each altered on the wire by a tape-chosen fault: none / byte flip / truncation / trailing bytes / a minimal var-int re-encoded non-minimally (0xfd/0xfe/0xff forms) at a tape-chosen var-int position / a length field changed / only signature bytes changed / size blown over 1 MiB. For every byte string the node's decoder (TransactionFromRawBytes) ACCEPTS: ToArray() equals the consumed bytes; the unsigned part re-encoded from the PARSED FIELDS (a MutableTransaction built from them and serialised, which does not reuse the captured bytes) equals the consumed unsigned prefix; hash = sha256^2(unsigned prefix) (Ontology format) or the EIP-155 transaction hash; a change confined to the signature section leaves the hash unchanged; inputs over the size limit are rejected. non-trivial = >= 3 accepted altered inputs evaluated and >= 1 rejected; distinct = distinct event-trace hash",
+		Real:           []string{"core/types transaction codec (Deserialization, IntoMutable, serialisation)", "core/payload codecs", "common zero-copy source/sink"},
+		Stub:           []string{"client and corrupting link (harness)"},
+		Assumptions:    []string{"the only simulator dimension is in-flight corruption; exploration over generated corruptions, not all byte strings", "the signature section is compared byte-for-byte only through ToArray (a different but valid script encoding is not a hash-relevant difference)"},
 		ExpectedProbes: []string{"accepted_altered", "rejected_altered", "nonminimal_varint_rejected", "oversize_rejected"},
 		Run:            runC19,
 	})
